@@ -279,7 +279,7 @@ man = {
     "engines": [
         {"name": "kani", "path": "engines/kani", "serves_properties": ["C11", "C15", "C16", "C19"],
          "kind_free_text": "Kani/CBMC proof harnesses wired into a scratch copy of the crate; concrete-playback replay"},
-        {"name": "polyid", "path": "engines/polyid", "serves_properties": ["C03", "C04", "C10", "C14"],
+        {"name": "polyid", "path": "engines/polyid", "serves_properties": ["C03", "C04", "C10", "C12", "C14"],
          "kind_free_text": "interpreter over rustc MIR executing point formulas over an abstract ring; z3 decides polynomial identities"},
         {"name": "llsym", "path": "engines/llsym", "serves_properties": ["C01", "C02", "C05", "C06", "C07", "C08", "C09", "C11", "C12", "C13", "C17", "C18", "C19", "C20"],
          "kind_free_text": "symbolic executor over rustc's optimized LLVM IR (concrete control, symbolic data) with bit-vector and integer SMT encodings; z3/cvc5 decide"},
